@@ -6,8 +6,8 @@ package signature
 //@ func signature.ParseCertificates
 //@   inline
 //@   property C09
-//@   loop 1 invariant parsed-so-far-non-nil: forall j :: 0 <= j && j <= $ri ==> #certs[j] != nil
-//@   loop 1 invariant parsed-keys-absent-or-non-nil: forall j :: 0 <= j && j <= $ri ==> (tagof(#certs[j].PublicKey) != 0 ==> valof(#certs[j].PublicKey) != nil)
+//@   loop 1 invariant parsed-so-far-non-nil: forall j :: 0 <= j && j <= $ri ==> #certs~slice0[j] != nil
+//@   loop 1 invariant parsed-keys-absent-or-non-nil: forall j :: 0 <= j && j <= $ri ==> (tagof(#certs~slice0[j].PublicKey) != 0 ==> valof(#certs~slice0[j].PublicKey) != nil)
 //@
 //@ pure xsig() = as(signedRes, "xmlsig.Signature")
 //@ func signature.Create
@@ -30,8 +30,8 @@ package signature
 //@                out.SignedInfo.Reference[0].Transforms.Transform[j].Algorithm == xsig().SignedInfo.Reference.Transforms.Transform[j].Algorithm)
 //@   canary canary-empty-value: err == nil ==> out.SignatureValue.Text == ""
 //@   loop 1 invariant range: -1 <= $ri && $ri < len(xsig().SignedInfo.Reference.Transforms.Transform)
-//@   loop 1 invariant copied-so-far: len(#transforms) == $ri + 1 &&
-//@             (forall j :: 0 <= j && j <= $ri ==> #transforms[j].Algorithm == xsig().SignedInfo.Reference.Transforms.Transform[j].Algorithm)
+//@   loop 1 invariant copied-so-far: len(#transforms~slice0) == $ri + 1 &&
+//@             (forall j :: 0 <= j && j <= $ri ==> #transforms~slice0[j].Algorithm == xsig().SignedInfo.Reference.Transforms.Transform[j].Algorithm)
 //@
 //@ func signature.ValidateRedirect
 //@   inline
